@@ -38,4 +38,7 @@ class Counters(dict):
                 for kk, vv in v.items():
                     d[kk] = d.get(kk, 0) + vv
             elif isinstance(v, (int, float)):
-                self[k] = self.get(k, 0) + v
+                if k.startswith('max_'):
+                    self[k] = max(self.get(k, 0), v)
+                else:
+                    self[k] = self.get(k, 0) + v
